@@ -358,3 +358,52 @@ def falsy_override_sites(func):
             if isinstance(tn, ast.Name) and tn.id in optional and (reads_config(x.body) or reads_config(x.orelse)):
                 out.append((x, tn.id, x))
     return out
+
+
+# ---------------------------------------------------------------------------
+# names that may be read before assignment on a path the two correlations of dataflow.undefined_witness cannot exclude, each confirmed by reading
+ASSIGNED_BY_ARGUMENT = {
+    ('xdoctest.doctest_example.DocTest.run', 'sub_tb'): 'loop variable read after the loop, only inside `if DEBUG:` output; an empty traceback walk is followed by the "could not clean traceback" branch',
+    ('xdoctest.parser.DoctestParser.parse', 'failpoint'): 'assigned by the None-test chain of the wrapping handler; that one of the tests holds is what C14.R1 decides (an exceptional edge out of the i-th phase leaves the i-th result None)',
+}
+
+
+def definite_assignment(ctx, rule, modules, floor):
+    """DEFINITE-ASSIGNMENT: in every function of the given modules no local variable is read on a feasible path on which it was never assigned
+    (UnboundLocalError is an exception no handler of the package expects).  Decided by a must-assigned dataflow over normal and exceptional
+    edges; each candidate is then confirmed by a path search that respects repeated tests and constant flags, and reported with that path."""
+    from ..dataflow import possibly_undefined, undefined_witness
+    rep = ctx.rep
+    n_funcs = n_loads = 0
+    for f in ctx.prog.funcs.values():
+        if f.module.name not in modules:
+            continue
+        g = ctx.cfg(f)
+        rd = ctx.rd(f)
+        n_funcs += 1
+        cands = possibly_undefined(g, rd)
+        seen = set()
+        for (node, nm) in cands:
+            if (f.qualname, nm.id) in ASSIGNED_BY_ARGUMENT or (nm.id, id(node)) in seen:
+                continue
+            seen.add((nm.id, id(node)))
+            w = undefined_witness(g, rd, node, nm.id, load=nm)
+            if w is None:
+                continue
+            if w == 'limit':
+                raise AnalysisError('%s: the search for a path on which `%s` is unassigned in %s was cut off' % (rule, nm.id, f.qualname))
+            n_loads += 1
+            rep.ob(rule, ctx.loc(f, nm), 'read of `%s` in %s' % (nm.id, f.name), False,
+                   'the local `%s` is read here, but there is a path from the entry of %s on which no assignment to it was executed: UnboundLocalError at run time, raised '
+                   'where no handler expects it' % (nm.id, f.name), witness=graph_fmt(w, f.module.relpath), anchor=f.qualname)
+    rep.ob(rule, 'src/%s:1' % sorted(modules)[0].replace('.', '/') + '.py', 'locals are assigned before use (%d functions)' % n_funcs, True,
+           'no feasible path reads an unassigned local (%d documented exceptions)' % len(ASSIGNED_BY_ARGUMENT), anchor=sorted(modules)[0])
+    rep.floor(rule, 'functions analysed for definite assignment', n_funcs, floor)
+
+
+def graph_fmt(path, relpath):
+    from .. import graph
+    try:
+        return graph.fmt_path(path, relpath)
+    except Exception:
+        return None
